@@ -337,6 +337,13 @@ Toggle ==
   /\ tracing' = ~tracing
   /\ hist' = Append(hist, [c |-> IF tracing THEN "trace_off" ELSE "trace_on"])
   /\ UNCHANGED <<prog, recd, val, saved, heap, phase, cur, ret, bars>>
+\* an unrelated, already completed graph is evaluated (value, gradient) while THIS graph is recording: no effect, in particular
+\* this graph keeps recording
+OtherRec ==
+  /\ phase = "rec" /\ "otherrec" \in Ops /\ tracing
+  /\ Cardinality({k \in 1..Len(hist) : hist[k].c = "other_rec"}) < 1
+  /\ hist' = Append(hist, [c |-> "other_rec"])
+  /\ UNCHANGED <<prog, recd, tracing, val, saved, heap, phase, cur, ret, bars>>
 Stop ==
   /\ phase = "rec" /\ Len(prog) > NPre /\ recd[Len(prog)] /\ val[Len(prog)] # NoneV
   /\ prog[Len(prog)].op \notin {"const", "zeros"}
@@ -347,7 +354,7 @@ Stop ==
   /\ UNCHANGED <<prog, recd, val, saved, heap, cur, ret, bars>>
 
 \* ------------------------------------------------------------------ calls on the recorded graph
-CanCall == phase = "idle" /\ Cardinality({k \in 1..Len(hist) : hist[k].c \notin {"rec", "stop", "trace_off", "trace_on"}}) < MaxHist
+CanCall == phase = "idle" /\ Cardinality({k \in 1..Len(hist) : hist[k].c \notin {"rec", "stop", "trace_off", "trace_on", "other_rec"}}) < MaxHist
 \* cg.pushforward([x]) with a UTPM (D, P) or a plain array (D = 1)
 Fwd(pt, kind) ==
   /\ CanCall /\ (kind = "A" => pt.D = 1)
@@ -438,7 +445,7 @@ Other ==
   /\ hist' = Append(hist, [c |-> "other"]) /\ ret' = NoRet
   /\ UNCHANGED <<prog, recd, tracing, val, saved, heap, phase, cur, bars>>
 
-Next == (\E ins \in Instrs : Rec(ins)) \/ Toggle \/ Stop
+Next == (\E ins \in Instrs : Rec(ins)) \/ Toggle \/ OtherRec \/ Stop
         \/ (\E pt \in Points : \E kind \in {"U", "A"} : Fwd(pt, kind))
         \/ (\E sd \in Seeds : Pb(sd)) \/ Other
         \/ (\E name \in DrvNames : \E x \in DrvX : \E v \in DrvV : \E w \in DrvW : Drv(name, x, v, w))
